@@ -384,6 +384,37 @@ func (ef *Effects) Roots(v ssa.Value) []Root {
 				add(Root{Kind: RNone})
 				return
 			}
+			// a dynamic call: the union over the module functions it can resolve to, if all of them are known
+			if targets := ef.dynamicTargets(&x.Call); len(targets) > 0 {
+				known := true
+				for _, t := range targets {
+					if ef.Funcs[t] == nil {
+						known = false
+					}
+				}
+				if known {
+					for _, t := range targets {
+						if ef.Funcs[t].ReturnsFresh {
+							add(Root{Kind: RLocal})
+							continue
+						}
+						for _, r := range ef.returnRoots(t) {
+							switch r.Kind {
+							case RParam:
+								args := callArgs(x)
+								if r.Param >= 0 && r.Param < len(args) {
+									walk(args[r.Param])
+								}
+							case RLocal, RNone:
+								add(Root{Kind: RLocal})
+							default:
+								add(r)
+							}
+						}
+					}
+					return
+				}
+			}
 			add(Root{Kind: RUnknown, Why: "result of a dynamic call"})
 		default:
 			add(Root{Kind: RUnknown, Why: fmt.Sprintf("%T", v)})
@@ -735,11 +766,40 @@ var purePkgs = map[string]bool{
 	"errors": true, "fmt": true, "golang.org/x/text/language": true, "github.com/goark/errs": true, "cmp": true,
 }
 
+// argWriters: standard-library functions that modify exactly the listed arguments (sorting in place, copying into
+// a destination) and nothing else the caller can see.
+var argWriters = map[string][]int{
+	"sort.Slice": {0}, "sort.SliceStable": {0}, "sort.Ints": {0}, "sort.Strings": {0}, "sort.Float64s": {0}, "sort.Sort": {0}, "sort.Stable": {0},
+	"slices.Sort": {0}, "slices.SortFunc": {0}, "slices.SortStableFunc": {0}, "slices.Reverse": {0},
+	"maps.Copy": {0}, "maps.DeleteFunc": {0},
+	"io.WriteString": {0},
+}
+
+// freshFuncs: standard-library functions that only read their arguments; what they return does not alias them in
+// a way a later write could exploit (a clone, an index, a boolean).
+var freshFuncs = map[string]bool{
+	"maps.Clone": true, "maps.Equal": true, "maps.EqualFunc": true,
+	"slices.Clone": true, "slices.Contains": true, "slices.ContainsFunc": true, "slices.Index": true, "slices.IndexFunc": true,
+	"slices.Equal": true, "slices.BinarySearch": true, "slices.Max": true, "slices.Min": true,
+	"sort.SearchInts": true, "sort.SearchStrings": true, "sort.Search": true,
+}
+
 // externEffect looks a callee up in the explicit table, then in the pure-package rule.
 func externEffect(callee *ssa.Function) (ExternEffect, bool) {
 	q := qualified(callee)
 	if eff, ok := Externs[q]; ok {
 		return eff, true
+	}
+	// sort / slices / maps / io helpers, by name without type arguments (callees may be generic instances)
+	base := q
+	if i := strings.Index(base, "["); i >= 0 {
+		base = base[:i]
+	}
+	if ps, ok := argWriters[base]; ok {
+		return ExternEffect{WritesParams: ps, Fresh: true, Note: "writes only the listed arguments"}, true
+	}
+	if freshFuncs[base] {
+		return ExternEffect{Fresh: true, Note: "reads its arguments, returns a fresh value"}, true
 	}
 	if callee.Pkg != nil && purePkgs[callee.Pkg.Pkg.Path()] {
 		recv := callee.Signature.Recv()
